@@ -147,7 +147,7 @@ def attributes(pt) -> Tuple[str, List[Tuple[str, str, Any]]]:
 def data_sx(key: str, value: Any) -> str:
     """data is opaque to the model except for emptiness of list / mapping valued optional attributes"""
     if key in LIST_KEYS:
-        return '(arr (a x))' if len(value) else '(arr)'
+        return '(arr%s)' % (' (a x)' * len(value))        # (the length is kept: it tells versions of a template apart)
     if key in MAP_KEYS:
         return '(obj (x (a x)))' if len(value) else '(obj)'
     if key == 'consistency_check':
@@ -519,7 +519,9 @@ class Case:
         self.rng = rng
         with warnings.catch_warnings():
             warnings.simplefilter('ignore')
-            channels = opts.get('channels') or rng.choice([['A'], ['A', 'B'], ['A', 'B', 'C']])
+            # channel names: ordinary ones and digit-only STRINGS ('1' is a name, not the integer 1), also mixed
+            channels = opts.get('channels') or rng.choice([['A'], ['A', 'B'], ['A', 'B', 'C'], ['1'], ['A', '2'],
+                                                           ['0', '1', '12'], ['1', '2']])
             self.roots = self.gen.forest(opts.get('roots') or rng.randrange(1, 4), opts.get('depth', 3), channels)
         self.finish(opts.get('backend') or rng.choice(['dict', 'fs', 'zip', 'fs', 'zip', 'caching']))
 
@@ -978,6 +980,10 @@ def witness(name: str):
     if name == 'numpy_count':
         import numpy
         return [P.RepetitionPT(P.ConstantPT(1, {'A': 1}), numpy.int64(3), identifier='r')], [{}]
+    if name == 'digit_channels':
+        c = P.ConstantPT('d', {'1': 'v', '2': 1}, identifier='c', measurements=[('m', 0, 'd')])
+        return [P.SequencePT(c, P.MappingPT(P.ConstantPT('d', {'0': 2, 'A': 'v'}), channel_mapping={'0': '1', 'A': '2'}),
+                             identifier='s')], [{'d': 1.5, 'v': 0.25}]
     if name == 'ne_constraint':
         import sympy
         return [P.SequencePT(P.FunctionPT('a*t', 'd', 'A', parameter_constraints=['Ne(a, b + 1)', 'a == c']),
@@ -1089,6 +1095,31 @@ def small_scope(ctx) -> List[Case]:
                             measurement_mapping={'m': 'mm'}, identifier=ident())
         cases.append(Built([outer], backend=['dict', 'fs', 'zip'][len(cases) % 3],
                            assign=[{'d0': 1.5, 'v2': 1 / 3}, {'d0': 1, 'v2': 5000}]))
+    # digit-only channel NAMES in every class that keys a dictionary by channel
+    for a, b in (('1', '2'), ('0', 'A'), ('12', '7')):
+        const = lambda: P.ConstantPT('d0', {a: 'v0', b: 1})
+        digit = [
+            P.ConstantPT('d0', {a: 'v0', b: 1}, identifier=ident()),
+            P.TablePT({a: [(0, 'v0'), ('d0', 1, 'linear')], b: [(0, 0), ('d0', 'v0')]}, identifier=ident()),
+            P.PointPT([(0, ['v0', 1]), ('d0', [1, 'v0'], 'linear')], [a, b], identifier=ident()),
+            P.FunctionPT('v0*t', 'd0', a, identifier=ident()),
+            P.MappingPT(const(), channel_mapping={a: b, b: a}, identifier=ident()),
+            P.MappingPT(const(), channel_mapping={a: 'Q', b: '3'}, identifier=ident()),
+            P.MappingPT(P.ConstantPT('d0', {'X': 'v0', 'Y': 1}), channel_mapping={'X': a, 'Y': None}, identifier=ident()),
+            P.ParallelChannelPT(P.ConstantPT('d0', {a: 'v0'}), {b: 'v0*2'}, identifier=ident()),
+            P.ParallelChannelPT(const(), {a: 'v0*2'}, identifier=ident()),
+            P.ArithmeticPT(const(), '+', {a: 'v0', b: 2}, identifier=ident()),
+            P.ArithmeticPT({b: 'v0'}, '-', const(), identifier=ident()),
+            P.ArithmeticAtomicPT(const(), '+', P.ConstantPT('d0', {a: 2}), identifier=ident()),
+            P.AtomicMultiChannelPT(P.ConstantPT('d0', {a: 'v0'}), P.ConstantPT('d0', {b: 1}), identifier=ident()),
+            P.SequencePT(const(), P.RepetitionPT(const(), 2), identifier=ident()),
+            P.ForLoopPT(const(), 'v0', 3, identifier=ident()),
+            P.TimeReversalPT(const(), identifier=ident()),
+            P.AbstractPT(ident('abs'), defined_channels={a, b}, integral={a: 'p', b: 1}),
+        ]
+        for r in digit:
+            cases.append(Built([r], backend=['dict', 'fs', 'zip'][len(cases) % 3],
+                               assign=[{'d0': 1.5, 'v0': 0.25}]))
     # count-down loops that differ only where CPython hashes collide (-1 / -2, 2**61 / 1, 2**61-1 / 0), in both orders
     for k, fam in enumerate(c10gen.colliding_ranges('n0')):
         for order in (0, 1):
@@ -1310,12 +1341,16 @@ class MultiCase:
         mine: Dict[Tuple[int, str], Any] = {}
 
         def version(rid):
+            # every version is a different object; the number of measurement windows of the root makes the versions
+            # different for the model as well (identity is structural equality there)
             with warnings.catch_warnings():
                 warnings.simplefilter('ignore')
                 inner = self.gen.gen(rng.randrange(0, 3), ['A'])
-                return rng.choice([lambda: P.SequencePT(inner, identifier=rid),
-                                   lambda: P.TimeReversalPT(inner, identifier=rid),
-                                   lambda: P.RepetitionPT(inner, 2, identifier=rid, measurements=[('w%d' % len(self.ops), 0, 1)])])()
+                n = len(self.ops) + 1
+                meas = [('w%d' % j, 0, 1) for j in range(n)]
+                return rng.choice([lambda: P.SequencePT(inner, identifier=rid, measurements=meas),
+                                   lambda: P.SequencePT(P.TimeReversalPT(inner), identifier=rid, measurements=meas),
+                                   lambda: P.RepetitionPT(inner, 2, identifier=rid, measurements=meas)])()
         if script is None:
             script = []
             for _ in range(rng.randrange(4, 9)):
